@@ -21,7 +21,7 @@ from . import common, trav
 MENU_QUICK = [
     "only=normal", "only=tutorial1", "only=minimal.quicktest", "no=tutorial2", "only=leaves..tutorial_gui", "only=minimal,normal",
     "only_vm1=Fedora", "no_vm2=Win7", "only_vm1=", "only_vm9=CentOS",
-    "vms=vm1", "vms=vm2,vm3", "vms=vmX",
+    "vms=vm1", "vms=vm2,vm3", "vms=vmX", "vms=vm1,vmX",
     "nets=net1,net2", "only_nets=cluster1", "no_nets=localhost",
     "aaa=b,c", "test_timeout=50", "malformed",
 ]
@@ -199,17 +199,41 @@ def check_override_order() -> tuple[bool, str]:
     return False, "overrides reach every parsed test"
 
 
+def generated_lists() -> list[str]:
+    """Every vms= / nets= value list of 1..3 distinct elements over known and unknown names, in every order."""
+    import itertools
+
+    out = []
+    for key, names in (("vms", ["vm1", "vm2", "vm3", "vmX"]), ("nets", ["net1", "net2", "netX"])):
+        for n in (1, 2, 3):
+            for combo in itertools.permutations(names, n):
+                out.append(f"{key}=" + ",".join(combo))
+    return out
+
+
 def run(ctx: common.Context) -> None:
-    _cfg["max_len"] = 3 if ctx.thorough else 2
-    _cfg["menu"] = MENU_QUICK + (MENU_EXTRA if ctx.thorough else ["only_vm12=CentOS"])
-    exhausted, stats, collected, err = symx.explore_parallel(_factory, seed=ctx.seed, split_depth=2, deadline=ctx.deadline(150, 1200), min_tasks=16)
-    ctx.add_stats(stats)
-    counters = common.merge_collected(ctx, collected)
-    ctx.part("argument lists", exhausted=exhausted, paths=stats.paths, counters=counters)
-    if err:
-        ctx.note_inconclusive(err)
-    if not exhausted:
-        ctx.exhaustive = False
+    rounds = [
+        ("argument lists", MENU_QUICK + (MENU_EXTRA if ctx.thorough else ["only_vm12=CentOS"]), 3 if ctx.thorough else 2),
+        ("generated object lists next to one other argument", generated_lists() + ["only_vm1=Fedora", "only=normal", "only_nets=cluster1", "no_vm2=Win7"], 2),
+    ]
+    counters: dict[str, int] = {}
+    for name, menu, max_len in rounds:
+        _cfg["max_len"], _cfg["menu"] = max_len, menu
+        exhausted, stats, collected, err = symx.explore_parallel(_factory, seed=ctx.seed, split_depth=2, deadline=ctx.deadline(100, 900), min_tasks=16)
+        ctx.add_stats(stats)
+        part = common.merge_collected(ctx, collected)
+        for k, v in part.items():
+            counters[k] = counters.get(k, 0) + v
+        ctx.part(name, exhausted=exhausted, paths=stats.paths, counters=part, menu_size=len(menu), max_len=max_len)
+        if err:
+            ctx.note_inconclusive(err)
+        if not exhausted:
+            ctx.exhaustive = False
+        for c in collected:
+            for what, cls, detail in c.violations:
+                ctx.report(f"C11 {cls}", what, detail, replay)
+    collected = []
+    _cfg["max_len"], _cfg["menu"] = rounds[0][2], rounds[0][1]
     if counters.get("rejected", 0) == 0:
         ctx.note_inconclusive("vacuous: no rejected command line")
     for c in collected:
